@@ -10,21 +10,6 @@ import FluteModel.Lemmas.SessionCodec
 namespace Flute.Props.C16
 open Flute Flute.Session Flute.Lemmas.Session
 
-theorem closeOK_of_noclose (c : Codec) (o : ObjCfg) : ∀ (es : List Ev) (P : List Sym),
-    (∀ s, Ev.pkt s ∈ es → s.close = false) → CloseOK c o P es := by
-  intro es
-  induction es with
-  | nil => intro P _; trivial
-  | cons e es ih =>
-    intro P h
-    cases e with
-    | fdt l => exact ih P (fun s hs => h s (List.mem_cons_of_mem _ hs))
-    | pkt s =>
-      refine ⟨?_, ih _ (fun q hq => h q (List.mem_cons_of_mem _ hq))⟩
-      intro hs
-      rw [h s (List.mem_cons_self ..)] at hs
-      exact absurd hs (by simp)
-
 /-- **C16 (receiver side, every join point).**  `a ++ fdt :: b ++ c2` is everything a receiver that
     joined at an arbitrary packet boundary sees of one carouselled, non-empty object until the end of
     the second full cycle after the join: whatever is left of the running cycle and the first full cycle
